@@ -66,7 +66,7 @@ func (w *faultyWriter) Write(p []byte) (int, error) {
 
 // richWriter is the same sink seen through a type that also offers the optional methods code likes to probe a
 // writer for (Flush, Close, WriteString, Sync); none of them fails and none of them may change what the caller
-// is told about a failed Write.
+// is told about a failed Write. WriteString and WriteByte are writes like any other and share the fault injector.
 type richWriter struct {
 	*faultyWriter
 	flushes int
@@ -77,6 +77,12 @@ func (w *richWriter) Sync() error  { return nil }
 func (w *richWriter) Close() error { return nil }
 func (w *richWriter) WriteString(s string) (int, error) {
 	return w.faultyWriter.Write([]byte(s))
+}
+
+// WriteByte is one write like any other: it can be the one that fails.
+func (w *richWriter) WriteByte(b byte) error {
+	_, err := w.faultyWriter.Write([]byte{b})
+	return err
 }
 
 // numModes: modes 0..7 = accept kind (mode%4) × {persistent, transient}; modes 8 and 9 = accept 0 bytes,
@@ -133,48 +139,70 @@ func runHistory(c *fw.Ctx, cf config, h []int) {
 	desc := fmt.Sprintf("%s codec=%s blocksize=%d history=[%s]", cf.k.Name, cf.codec, cf.bs, encdrv.HistString(cf.k, h))
 	locus := cf.k.Name
 	c.Begin(locus, desc) // progress marker (the watchdog needs to see progress inside long cases)
-	// fault-free run: learn the number of writes and the clean output
-	clean := &faultyWriter{failAt: -1}
-	var writeOfCall []int // number of writes issued before call i (call -1 = constructor)
-	hdrWrites := 1
-	ok := true
-	c.Guard(locus, desc, desc, func() {
-		e, err := encdrv.New(cf.k, clean, cf.codec, cf.bs)
-		if err != nil {
-			ok = false
-			return
+	// fault-free runs, one per writer shape (a tree may drive a writer that offers WriteByte / WriteString through
+	// those): learn the number of writes, which call issues which, and the clean output
+	type cleanRun struct {
+		total, hdrWrites int
+		writeOfCall      []int
+		out              []byte
+		hdrLen           int
+	}
+	runClean := func(rich bool) (cr cleanRun, ok bool) {
+		clean := &faultyWriter{failAt: -1}
+		var sink io.Writer = clean
+		if rich {
+			sink = &richWriter{faultyWriter: clean}
 		}
-		hdrWrites = clean.writes // however many writes the constructor's header takes on this tree
-		for _, op := range h {
-			writeOfCall = append(writeOfCall, clean.writes)
-			if cf.k.IsFlush(op) {
-				err = e.Flush()
-			} else {
-				err = e.Encode(op)
-			}
+		ok = true
+		cr.hdrWrites = 1
+		c.Guard(locus, desc, desc, func() {
+			e, err := encdrv.New(cf.k, sink, cf.codec, cf.bs)
 			if err != nil {
 				ok = false
 				return
 			}
+			cr.hdrWrites = clean.writes // however many writes the constructor's header takes on this tree
+			for _, op := range h {
+				cr.writeOfCall = append(cr.writeOfCall, clean.writes)
+				if cf.k.IsFlush(op) {
+					err = e.Flush()
+				} else {
+					err = e.Encode(op)
+				}
+				if err != nil {
+					ok = false
+					return
+				}
+			}
+		})
+		if !ok {
+			c.Violation("fault-free-run-failed|"+locus, "fault-free run failed: "+desc, desc)
+			return cr, false
 		}
-	})
-	if !ok {
-		c.Violation("fault-free-run-failed|"+locus, "fault-free run failed: "+desc, desc)
+		cr.total = clean.writes
+		cr.out = clean.buf.Bytes()
+		cp, err := ref.ParseFile(cr.out)
+		if err != nil {
+			c.Violation("fault-free-run-unparseable|"+locus, "fault-free output unparseable: "+desc, desc)
+			return cr, false
+		}
+		cr.hdrLen = cp.HeaderEnd
+		return cr, true
+	}
+	plain, ok1 := runClean(false)
+	rich, ok2 := runClean(true)
+	if !ok1 || !ok2 {
 		return
 	}
-	total := clean.writes
-	cleanOut := clean.buf.Bytes()
-	cp, err := ref.ParseFile(cleanOut)
-	if err != nil {
-		c.Violation("fault-free-run-unparseable|"+locus, "fault-free output unparseable: "+desc, desc)
-		return
-	}
-	hdrLen := cp.HeaderEnd
-	for k := 0; k < total; k++ {
-		for mode := 0; mode < numModes; mode++ {
+	for mode := 0; mode < numModes; mode++ {
+		cr := plain
+		if mode >= 8 {
+			cr = rich
+		}
+		for k := 0; k < cr.total; k++ {
 			c.Eval(1)
-			c.Nontrivial(fmt.Sprintf("%s/%s/%d/%v/%d/%d", cf.k.Name, cf.codec, cf.bs, h, k, mode))
-			oneFault(c, cf, h, k, mode, cleanOut, hdrLen, hdrWrites, writeOfCall, desc, locus)
+			c.Nontrivial(fmt.Sprintf("%s/%s/%d/%s/%d/%d", cf.k.Name, cf.codec, cf.bs, encdrv.HistString(cf.k, h), k, mode))
+			oneFault(c, cf, h, k, mode, cr.out, cr.hdrLen, cr.hdrWrites, cr.writeOfCall, desc, locus)
 		}
 	}
 }
@@ -363,6 +391,20 @@ func tasks(tier string) []task {
 			}})
 		}
 	}
+	// one long history: tens of thousands of rows in a single block (whatever the encoder does "every so many
+	// rows" happens somewhere inside), then a flush
+	for _, codec := range []string{"null", "deflate", "snappy"} {
+		codec := codec
+		ts = append(ts, task{"long history " + codec, func(c *fw.Ctx) {
+			h := make([]int, 0, 40001)
+			for i := 0; i < 40000; i++ {
+				h = append(h, i%2)
+			}
+			h = append(h, encdrv.K1.NumOps()-1) // flush
+			runHistory(c, config{encdrv.K1, codec, 1 << 22, len(h)}, h)
+			c.Sample(map[string]interface{}{"type": encdrv.K1.Name, "codec": codec, "history": "40000 x encode(1B/10B alternating), flush", "blocksize": 1 << 22})
+		}})
+	}
 	nb := 3
 	if tier == "thorough" {
 		nb = 4
@@ -387,7 +429,7 @@ func init() {
 			if tier == "thorough" {
 				d = 6
 			}
-			return fmt.Sprintf("every call history of the real Encoder[T] up to length %d over {encode(1B), encode(10B), encode(41B), flush} (struct{S string}; block sizes 0, 10, 2^20) and {encode(0B), flush} (struct{}), and (one step shorter) over a 24-field type whose schema exceeds 1 KiB, × {null,deflate,snappy} × every write index k of the fault-free run × failure mode {accept 0, 1, len-1, len bytes} + error × {every later write fails too, only this write fails (transient)}, and accept-0 × {persistent, transient} through a writer type that additionally has never-failing Flush/Sync/Close/WriteString methods; plus FileWriter.WriteHeader/WriteBlock driven directly over every sequence of <=3 (4 thorough) blocks from a 3-payload alphabet; a case is one (history, k, mode) triple; non-trivial = the failing write was reached and the accepted bytes compared with the fault-free run re-keyed to the same sync marker", d)
+			return fmt.Sprintf("every call history of the real Encoder[T] up to length %d over {encode(1B), encode(10B), encode(41B), flush} (struct{S string}; block sizes 0, 10, 2^20) and {encode(0B), flush} (struct{}), and (one step shorter) over a 24-field type whose schema exceeds 1 KiB, × {null,deflate,snappy} × every write index k of the fault-free run × failure mode {accept 0, 1, len-1, len bytes} + error × {every later write fails too, only this write fails (transient)}, and accept-0 × {persistent, transient} through a writer type that additionally has never-failing Flush/Sync/Close methods and WriteString/WriteByte that go through the same fault injector (the fault-free run is measured per writer shape); plus one 40000-row history in a single block per codec; plus FileWriter.WriteHeader/WriteBlock driven directly over every sequence of <=3 (4 thorough) blocks from a 3-payload alphabet; a case is one (history, k, mode) triple; non-trivial = the failing write was reached and the accepted bytes compared with the fault-free run re-keyed to the same sync marker", d)
 		},
 		Assumptions: []string{
 			"the writer obeys io.Writer: a short write comes with a non-nil error; after the first failure the history stops (behaviour after an error is not specified by the property)",
